@@ -1,65 +1,67 @@
 import WorkflowModel.Model.Routing
 import WorkflowModel.Lemmas.Text
 import WorkflowModel.Props.Tie
-/-! # C10 (shards and roles) — shards partition the events; role names are distinct
+/-! # C10 (shards) — shards partition the events, for every event ID including negative ones
 
 `Routing.shardOut` is built from the **generated** guard expressions of `shardFilter` (Go `%` is truncated
-division = `Int.tmod`). -/
+division = `Int.tmod`). Before the repair of defect F12 the expression was `id % n ≠ shard-1` and the full statement was
+provably FALSE (id = -3, n = 2 was handled by no shard); the repaired expression shifts the remainder into [0, n). -/
 namespace WorkflowModel.C10
 open WorkflowModel Routing Text
 
-theorem shardOut_eq (shard total id : Int) :
-    shardOut shard total id = if total > 1 then decide (id.tmod total ≠ shard - 1) else false := by
-  simp [shardOut, Gen.G.shardActive, Gen.G.shardOutExpr]
+/-- the remainder the repaired filter compares with: in [0, n) for every id -/
+def posMod (id total : Int) : Int := (id.tmod total + total).tmod total
 
-/-- with n ≥ 2 shards every event with a non-negative ID is handled by exactly one shard -/
-theorem C10_shard_partition_nonneg (total id : Int) (ht : 1 < total) (hid : 0 ≤ id) :
+theorem shardOut_false_iff (shard total id : Int) :
+    shardOut shard total id = false ↔ (total ≤ 1 ∨ posMod id total = shard - 1) := by
+  unfold shardOut posMod
+  simp only [Gen.G.shardActive, Gen.G.shardOutExpr, Gen.G.shardTotal]
+  by_cases ht : total > 1
+  · simp only [ht, decide_true, if_true, decide_eq_false_iff_not, ne_eq, Classical.not_not]
+    constructor
+    · intro h; exact Or.inr (Classical.not_not.mp (of_decide_eq_false h))
+    · rintro (h | h)
+      · omega
+      · exact decide_eq_false (fun hn => hn h)
+  · simp only [ht, decide_false, Bool.false_eq_true, if_false, true_iff]
+    exact Or.inl (by omega)
+
+theorem tmod_abs_lt (id total : Int) (ht : 0 < total) : -total < id.tmod total ∧ id.tmod total < total := by
+  by_cases hn : id < 0
+  · have h := Int.neg_tmod id total
+    have h1 := Int.tmod_nonneg total (by omega : 0 ≤ -id)
+    have h2 := Int.tmod_lt_of_pos (-id) ht
+    omega
+  · have h1 := Int.tmod_nonneg total (by omega : 0 ≤ id)
+    have h2 := Int.tmod_lt_of_pos id ht
+    omega
+
+theorem posMod_range (id total : Int) (ht : 0 < total) : 0 ≤ posMod id total ∧ posMod id total < total := by
+  unfold posMod
+  have := tmod_abs_lt id total ht
+  exact ⟨Int.tmod_nonneg total (by omega), Int.tmod_lt_of_pos _ ht⟩
+
+/-- FULL STATEMENT: with n ≥ 2 shards EVERY event ID — negative ones derived from hashes included — is handled by exactly
+one of the n shards (and filtered out, i.e. acknowledged unhandled, by all the others). -/
+theorem C10_shard_partition (total id : Int) (ht : 1 < total) :
     ∃ s, 1 ≤ s ∧ s ≤ total ∧ shardOut s total id = false ∧
       ∀ s', 1 ≤ s' → s' ≤ total → shardOut s' total id = false → s' = s := by
-  refine ⟨id.tmod total + 1, ?_, ?_, ?_, ?_⟩
-  · have := Int.tmod_nonneg total hid; omega
-  · have := Int.tmod_lt_of_pos id (by omega : 0 < total); omega
-  · simp [shardOut_eq, ht]
-  · intro s' h1 h2 h3
-    simp [shardOut_eq, ht] at h3
+  obtain ⟨h0, h1⟩ := posMod_range id total (by omega)
+  refine ⟨posMod id total + 1, by omega, by omega, ?_, ?_⟩
+  · rw [shardOut_false_iff]; exact Or.inr (by omega)
+  · intro s' _ _ h3
+    rw [shardOut_false_iff] at h3
     omega
 
 /-- with fewer than two shards nothing is filtered -/
 theorem C10_single_shard (shard total id : Int) (ht : total ≤ 1) : shardOut shard total id = false := by
-  simp [shardOut_eq]; omega
-
-/-- FULL STATEMENT (all int64 IDs, including negative ones derived from hashes): exactly one shard handles
-each event. On the unchanged tree this is FALSE; see `C10_shard_negative` for the witness family. It is kept
-here as a `def` so the exact claim stays visible. -/
-def C10_shard_partition_full : Prop :=
-  ∀ total id : Int, 1 < total →
-    ∃ s, 1 ≤ s ∧ s ≤ total ∧ shardOut s total id = false ∧
-      ∀ s', 1 ≤ s' → s' ≤ total → shardOut s' total id = false → s' = s
-
-/-- for a negative ID whose remainder is non-zero NO shard handles the event (Go's `%` keeps the sign) -/
-theorem C10_shard_negative (total id : Int) (ht : 1 < total) (hid : id < 0) (hnd : id.tmod total ≠ 0) :
-    ∀ s, 1 ≤ s → s ≤ total → shardOut s total id = true := by
-  intro s h1 h2
-  simp [shardOut_eq, ht]
-  have : id.tmod total ≤ 0 := by
-    have h := Int.neg_tmod (-id) total
-    rw [Int.neg_neg] at h
-    have := Int.tmod_nonneg total (by omega : 0 ≤ -id)
-    omega
-  omega
-
-/-- the full statement is false on the unchanged tree: event ID -3 with two shards is handled by nobody -/
-theorem C10_shard_partition_full_false : ¬ C10_shard_partition_full := by
-  intro h
-  obtain ⟨s, h1, h2, h3, _⟩ := h 2 (-3) (by decide)
-  have := C10_shard_negative 2 (-3) (by decide) (by decide) (by decide) s h1 h2
-  rw [this] at h3
-  exact absurd h3 (by decide)
+  rw [shardOut_false_iff]; exact Or.inl ht
 
 /-- T2: launch sequence of `Run` and the construction of every role name (stable identifiers only) -/
 theorem C10_tie_launch_and_roles : Tie.runLaunches = true ∧ Tie.roles = true := by decide +kernel
 
-example : shardOut 1 2 (-3) = true ∧ shardOut 2 2 (-3) = true ∧ shardOut 1 2 4 = false ∧ shardOut 2 2 4 = true := by
-  simp [shardOut_eq]
+/-- non-vacuity: the former counterexample -3 with two shards is now handled by shard 2 only -/
+example : shardOut 1 2 (-3) = true ∧ shardOut 2 2 (-3) = false ∧ shardOut 1 2 4 = false ∧ shardOut 2 2 4 = true := by
+  decide +kernel
 
 end WorkflowModel.C10
